@@ -263,8 +263,27 @@ def run(ctx):
         cdef = [st for st in ast.walk(f) if isinstance(st, ast.Assign) and norm(st.targets[0]) == CI]
         if len(cdef) != 1:
             raise AnalysisError(f"{q}: circular index `{CI}` is not defined exactly once")
+        # the index may itself be computed from other single-assignment locals (e.g. slot = m - 1 - cindx): write everything in terms of parameters / attributes
+        import copy as _copy
+
+        def _expand(e, depth=0):
+            class _S(ast.NodeTransformer):
+                def visit_Name(s_, n):
+                    st_ = local_assigned.get(n.id)
+                    if isinstance(n.ctx, ast.Load) and st_ is not None and n.id != step_param and depth < 5 and \
+                            sum(1 for x in ast.walk(f) if isinstance(x, ast.Name) and x.id == n.id and isinstance(x.ctx, ast.Store)) == 1:
+                        return _expand(_copy.deepcopy(st_.value), depth + 1)
+                    return n
+            return _S().visit(_copy.deepcopy(e))
+        # roles: the circular index c is what the propagators receive as their window start (3rd argument); the write slot is the subscript of the history store.
+        # Both are written out in terms of the step parameter, so it does not matter through which locals they are computed.
+        props = [c_ for c_ in calls_in(f) if callee_attr(c_) in ("_propagate_P", "_propagate_excited_state") and len(c_.args) >= 3]
+        cands = {norm(_expand(c_.args[2])) for c_ in props}
+        if len(cands) != 1:
+            raise AnalysisError(f"{q}: the propagators do not receive one common circular index ({sorted(cands)})")
+        cexpr_full = _expand(props[0].args[2])
         for w in writes:
-            sites.append((q, cdef[0].value, w.targets[0].slice, w, step_param, CI))
+            sites.append((q, cexpr_full, _expand(w.targets[0].slice), w, step_param, None))
             # value written is the freshly propagated quantity
             ctx.check(norm(w.value) in ("P", "es_amp"), "R3", md, w, q, w, "history slot receives the newly propagated quantity",
                       f"history slot receives `{norm(w.value)}`")
@@ -276,7 +295,7 @@ def run(ctx):
             slot_written_at = {}
             for s in range(0, 3 * m):
                 c = int_eval(cexpr, {**env0, sp_name: s})
-                wslot = int_eval(wexpr, {**env0, CI: c})
+                wslot = int_eval(wexpr, {**env0, sp_name: s})
                 if not (0 <= c < m and 0 <= wslot < m):
                     bad.append((m, s, "range", c, wslot))
                     break
@@ -340,7 +359,7 @@ def run(ctx):
                 xl_m = closure_eval(rdefs[mlen[0]], vals)
                 slot = closure_eval(rd.slice, vals)
                 last_c = int_eval(cexpr0, {"self.m": m, spn: done - 1})
-                last_slot = int_eval(wexpr0, {"self.m": m, CI0: last_c})
+                last_slot = int_eval(wexpr0, {"self.m": m, spn: done - 1})
                 if xl_m != m or slot != last_slot:
                     bad.append((m, done, slot, last_slot))
         ctx.check(not bad, "R3", md, rd, "Molecular_Dynamics_Basic.run_from_checkpoint", rd,
